@@ -336,11 +336,34 @@ func c12Scenario(clients []gridClient) *explore.Scenario {
 					return data
 				}
 			}
+			// resumed: an honest first connection through the same Config and session cache; the
+			// unoffered choice is then made on the connection that offers the cached session
+			scfg := sc.config()
+			if x.Choose("resumed", 2) == 1 {
+				what += " on-a-resuming-connection"
+				ccfg.ClientSessionCache = tls.NewLRUClientSessionCache(4)
+				ccfg.PreferSkipResumptionOnNilExtension = true
+				if w := peer.Run(ccfg, g.ID, scfg, peer.Opts{Prepare: g.prepare(), Echo: true}); !(w.OK() && w.EchoOK) {
+					r.Obs = "first-connection-failed"
+					return
+				}
+				r.Count("with_cached_session", 1)
+			}
 			var cleanup func()
-			hs := peer.Run(ccfg, g.ID, sc.config(), peer.Opts{Prepare: g.prepare(), Echo: true,
+			hs := peer.Run(ccfg, g.ID, scfg, peer.Opts{Prepare: g.prepare(), Echo: true,
 				OnConns: func(u *tls.UConn, s *tls.Conn) { cleanup = installHooks(s, hk) }})
 			if cleanup != nil {
 				cleanup()
+			}
+			if k.name == "tls13-suite" || k.name == "tls12-suite" {
+				// the suite is forced through the server's selection hook; a server that resumes a
+				// TLS <= 1.2 session answers with the SESSION's suite instead: then no unoffered choice
+				// was made and there is nothing to judge
+				if got := serverHelloSuite(hs.SE.AllWritten()); fmt.Sprintf("%04x", got) != val {
+					r.Obs = "forced-suite-not-on-the-wire"
+					r.Count("choice_not_made", 1)
+					return
+				}
 			}
 			r.Nontrivial = true
 			r.Class = what
@@ -490,11 +513,24 @@ func c12Scenarios(thorough bool) []*explore.Scenario {
 func init() {
 	register(&Prop{ID: "C12", Level: "exploration", Variant: "A", Scenarios: c12Scenarios,
 		Run: func(c *explore.Check, thorough bool) {
-			c.Rule = "every discovered ID, randomized seeds, custom specs incl. single-suite specs x environment {own Config, *Config shared with a second connection (other parrot family / custom spec) that builds its hello while this one awaits the server} x unoffered-choice kind {TLS 1.3 suite (forced through the suite hook, self-consistent), TLS 1.2 suite (forced, self-consistent), GREASE / TLS 1.3 suite id in a TLS 1.2 ServerHello, HelloRetryRequest naming a group the hello does not list, ServerHello key_share group without a sent share, ALPN not offered (1.3 EncryptedExtensions / 1.2 ServerHello), compression method 1, selected PSK identity without a PSK offer, legacy session id altered / emptied; over QUIC (UQUICClient vs the package's QUICServer): a non-empty session id echoed to a client that sent none} x every value of the kind's complement menu: Handshake must fail, HandshakeComplete must stay false, no application data, and ConnectionState must not report the value. Certificate-compression: a CompressedCertificate in an algorithm the hello did not list, or after the extension was removed and the hello rebuilt, must be refused (scenario shared with C21). distinct = (client, kind, value)"
+			c.Rule = "every discovered ID, randomized seeds, custom specs incl. single-suite specs x environment {own Config, *Config shared with a second connection (other parrot family / custom spec) that builds its hello while this one awaits the server} x {first connection, connection offering a session cached by an honest first connection} x unoffered-choice kind {TLS 1.3 suite (forced through the suite hook, self-consistent), TLS 1.2 suite (forced, self-consistent), GREASE / TLS 1.3 suite id in a TLS 1.2 ServerHello, HelloRetryRequest naming a group the hello does not list, ServerHello key_share group without a sent share, ALPN not offered (1.3 EncryptedExtensions / 1.2 ServerHello), compression method 1, selected PSK identity without a PSK offer, legacy session id altered / emptied; over QUIC (UQUICClient vs the package's QUICServer): a non-empty session id echoed to a client that sent none} x every value of the kind's complement menu: Handshake must fail, HandshakeComplete must stay false, no application data, and ConnectionState must not report the value. Certificate-compression: a CompressedCertificate in an algorithm the hello did not list, or after the extension was removed and the hello rebuilt, must be refused (scenario shared with C21). distinct = (client, kind, value)"
 			c.Assumptions = []string{"forced suites/ALPN keep the hooked server self-consistent (a client lacking the check would complete); ServerHello byte edits (group, compression, session id, PSK) make the server's own transcript diverge, so those rows rely on the client rejecting before Finished"}
 			runAll(c, c12Scenarios(thorough), 0)
 			for _, k := range c12Kinds() {
 				c.Gate(c.Total.Counters["kind_"+k.name] > 5, "non-vacuity: kind %s exercised %d times", k.name, c.Total.Counters["kind_"+k.name])
 			}
 		}})
+}
+
+// serverHelloSuite returns the cipher suite of the first ServerHello in a server's plaintext flight (0 if none).
+func serverHelloSuite(stream []byte) uint16 {
+	if len(stream) < 5+4+2+32+1 || stream[0] != 22 || stream[5] != 2 {
+		return 0
+	}
+	p := 5 + 4 + 2 + 32
+	p += 1 + int(stream[p])
+	if p+2 > len(stream) {
+		return 0
+	}
+	return uint16(stream[p])<<8 | uint16(stream[p+1])
 }
